@@ -147,6 +147,13 @@ func cmdRun(args []string) {
 				obls = append(obls, o)
 			}
 		}
+		if len(rep.Obls) > 0 && rep.Obls[0].enc != nil {
+			for _, o := range rep.Obls[0].enc.coverObls() {
+				if ore.MatchString(o.Name) && strings.Contains(*oblRe, "cover") {
+					obls = append(obls, o)
+				}
+			}
+		}
 	}
 	for _, o := range w.lemmaObligations() {
 		if re.MatchString(o.Name) && ore.MatchString(o.Name) {
